@@ -22,12 +22,27 @@ Structure of the argument (DESIGN.md §3 C13):
     the handler thread.  All positive theorems therefore assume that no pop's assignment throws
     (`NoThrowingPop` / `popThrows = false`); `cpq_pop_throw_not_isolated` and `aggregator_pop_throw_witness`
     are the closed counterexamples (known finding `pop-assignment-throw-locks-queue`).
-  * NOT proved in Lean (covered by the checked correspondence only): that the handler steps of `Agg` compute
-    `handleIdx` of the grabbed batch, that the `next` fields agree with the lists `plist/rem/dfr`, and the
-    composition of the per-batch orders into one linearization of a whole concurrent history.
+  * `cpq_history_linearizable` (+ the corollaries `cpq_pop_at_most_once_none_lost`, `cpq_try_pop_empty_truthful`,
+    `cpq_pop_returns_maximal`, `cpq_throw_isolated`): the COMPOSITION, as a theorem over concurrent histories of the
+    access-level model `Agg`: for every number of threads, every program, every schedule, the history of
+    invocations and responses is linearizable w.r.t. the sequential priority-queue specification; the
+    linearization points of a batch are all placed at the `exchange` that grabs it (batch order), inside a batch in
+    the executable order `batchLin`.  Its proof contains what used to be prose: the handler of `Agg`, executed access
+    by access and interleaved with the other threads, computes `handleIdx` of the batch it grabbed
+    (`Proofs/C13/Ref.lean`), and the batch orders compose (`Proofs/C13/Comp.lean`, `Main.lean`).
+    NOTE: the order in which the handler SERVES a batch is not a legal sequential order in general (heap `[3]`,
+    batch `push 10, push 5, try_pop`: the pop is served last and returns 5 by the `data.back()` shortcut while
+    10 is in the vector) — the operations of a batch are pairwise concurrent, so `batchLin`'s order is admissible.
+  * Elements are `Elem` = identity + priority class `key`; the comparator is `a.key < b.key`, an arbitrary strict
+    weak order with arbitrary ties (`swo_has_rank`: every strict weak order on finitely many elements has this form).
+  * NOT proved in Lean (covered by the E-SHIM trace replay only): that the `next` fields agree with the lists
+    `plist/rem/dfr` (the model keeps both and the replay compares the loaded pointer values).
 -/
 import TbbVerif.Proofs.C13.Lin
 import TbbVerif.Proofs.C13.Agg
+import TbbVerif.Proofs.C13.Corr
+import TbbVerif.Proofs.C13.Order
+import TbbVerif.Proofs.C13.Shape
 
 namespace TbbVerif.C13
 
@@ -47,7 +62,7 @@ element `data.back()` is inserted into the heap). -/
 theorem reheap_heap (h : Heap) (hm : h.mark ≤ h.data.length) (hl : 0 < h.data.length)
     (hh : IsHeap h.data h.mark) :
     IsHeap (reheap h).data (reheap h).mark ∧ (reheap h).mark ≤ (reheap h).data.length ∧
-    ((reheap h).data ++ [get h.data 0]).Perm h.data ∧ (∀ y ∈ h.data.take h.mark, y ≤ get h.data 0) := by
+    ((reheap h).data ++ [get h.data 0]).Perm h.data ∧ (∀ y ∈ h.data.take h.mark, y.key ≤ (get h.data 0).key) := by
   refine ⟨reheap_isHeap h hm hl hh, ?_, reheap_perm h hm hl, hh.mem_take_le hm⟩
   rw [mark_reheap h hm hl, length_reheap h hm hl]; omega
 
@@ -76,21 +91,21 @@ theorem cpq_batch_linearizable (h : Heap) (ops : List Op) (hh : IsHeap h.data h.
     (hfull : h.mark = h.data.length) (hnt : NoThrowingPop ops) :
     IsHeap (handleOps h ops).heap.data (handleOps h ops).heap.mark ∧
     (handleOps h ops).heap.mark = (handleOps h ops).heap.data.length ∧
-    ∃ (lin : List Ev) (sf : List Nat), lin.Perm (handleOps h ops).log ∧
+    ∃ (lin : List Ev) (sf : List Elem), lin.Perm (handleOps h ops).log ∧
       specRun h.data (lin.map (fun e => (e.op, e.res))) = some sf ∧ sf.Perm (handleOps h ops).heap.data := by
   have w : WF h := ⟨by omega, hh⟩
   have hn := noPopThrow_zipIdx ops hnt
-  obtain ⟨lin1, s1, _, hsim1, _, hdf1, _⟩ := pass1_lin ops.zipIdx hn h h.data ⟨w, by simp [heapPart, hfull]⟩
-  obtain ⟨lin2, s2, _, hsim2, _, _⟩ := pass2_lin (pass1 h ops.zipIdx).dfr hdf1 (pass1 h ops.zipIdx).heap s1 hsim1
+  obtain ⟨s1, _, hsim1, _, hdf1, _⟩ := pass1_lin ops.zipIdx hn h h.data ⟨w, by simp [heapPart, hfull]⟩
+  obtain ⟨s2, _, hsim2, _, _⟩ := pass2_lin (pass1 h ops.zipIdx).dfr hdf1 (pass1 h ops.zipIdx).heap s1 hsim1
   obtain ⟨wfin, hmf, _⟩ := finish_spec _ hsim2.1
   refine ⟨?_, ?_, handleIdx_lin h _ hn w hfull⟩
   · simp only [handleOps, handleIdx_eq h _ hn w hfull]; exact wfin.2
   · simp only [handleOps, handleIdx_eq h _ hn w hfull]; exact hmf
 
 /-- what acceptance by the spec means -/
-theorem spec_pop_meaning (s s' : List Nat) (e : Op × Res) (h : specStep s e = some s') :
+theorem spec_pop_meaning (s s' : List Elem) (e : Op × Res) (h : specStep s e = some s') :
     (∃ x, e = (.push x false, .pushOk) ∧ s' = x :: s) ∨ (∃ x, e = (.push x true, .pushFailed) ∧ s' = s) ∨
-    (∃ v, e = (.pop false, .popOk v) ∧ v ∈ s ∧ (∀ y ∈ s, y ≤ v) ∧ s' = s.erase v) ∨
+    (∃ v, e = (.pop false, .popOk v) ∧ v ∈ s ∧ (∀ y ∈ s, y.key ≤ v.key) ∧ s' = s.erase v) ∨
     (∃ thr, e = (.pop thr, .popFailed) ∧ s = [] ∧ s' = s) ∨ (e = (.pop true, .exc true) ∧ s ≠ [] ∧ s' = s) :=
   specStep_cases s s' e h
 
@@ -110,7 +125,7 @@ theorem spec_pop_meaning (s s' : List Nat) (e : Op × Res) (h : specStep s e = s
 `push` rethrows to its own caller only); the final queue state and the results of all other operations of the
 batch are exactly those of the same batch without that operation (for every heap, every batch `a ++ b` that
 itself runs to completion, every position of the throwing push and every labelling of the operations). -/
-theorem cpq_throw_isolated_partial (h : Heap) (a b : List (Op × Nat)) (x i : Nat)
+theorem cpq_throw_isolated_partial (h : Heap) (a b : List (Op × Nat)) (x : Elem) (i : Nat)
     (hab : (handleIdx h (a ++ b)).abort = none) :
     (handleIdx h (a ++ (.push x true, i) :: b)).heap = (handleIdx h (a ++ b)).heap ∧
     (handleIdx h (a ++ (.push x true, i) :: b)).abort = none ∧
@@ -125,9 +140,9 @@ nothing in it threw; one level up `handler_busy` is never cleared (`aggregator_p
 (`guarded` is regenerated from the source on every run: `false` as long as the pop assignments are outside any
 try block, as in the pinned tree; for a repaired tree the witness is vacuous and the check's probes must pass.) -/
 theorem cpq_pop_throw_not_isolated : guarded = false →
-    (handleOps ⟨[5], 1⟩ [.pop false, .pop true]).abort = some 1 ∧
-    resultOf (handleOps ⟨[5], 1⟩ [.pop false, .pop true]).log 0 = none ∧
-    resultOf (handleOps ⟨[5], 1⟩ [.pop false]).log 0 = some (.popOk 5) := by decide
+    (handleOps ⟨[⟨5, 5⟩], 1⟩ [.pop false, .pop true]).abort = some 1 ∧
+    resultOf (handleOps ⟨[⟨5, 5⟩], 1⟩ [.pop false, .pop true]).log 0 = none ∧
+    resultOf (handleOps ⟨[⟨5, 5⟩], 1⟩ [.pop false]).log 0 = some (.popOk ⟨5, 5⟩) := by decide
 
 /-- The combining aggregator (with the priority queue's handler), for ANY number of threads, ANY calls per
 thread (`todo`, none of them a pop whose element assignment throws — with such a pop the statement is false,
@@ -190,22 +205,228 @@ theorem counters_meaning (s : St) (t u : Tid) :
       (if u = t ∧ ((s.ths t).pc = .rdStatus ∨ unwinds s t = true) then 1 else 0) :=
   ⟨nSub_step s t u, nGrab_step s t u, nSet_step s t u, nRet_step s t u⟩
 
+
+/-! ## Whole histories -/
+
+/-- The four guards of `handle_operations`, re-translated from the source text on every run
+(`Generated.C13.shortcutP1/P2`, `emptyP2`, `finishGuard`), mean what every theorem of this file uses: the
+pop-takes-`data.back()` shortcut of both passes is `mark < size ∧ compare(data[0], data.back())`, the second
+pass fails a pop iff `data` is empty, the final `heapify` runs iff `mark < size`. -/
+theorem generated_guards (h : Heap) :
+    (shortcut h = true ↔ h.mark < h.data.length ∧ (get h.data 0).key < (back h.data).key) ∧
+    (shortcut2 h = shortcut h) ∧ (isEmpty2 h = true ↔ h.data.length = 0) ∧
+    (needHeapify h = true ↔ h.mark < h.data.length) :=
+  ⟨shortcut_iff h, shortcut2_eq h, isEmpty2_iff h, needHeapify_iff h⟩
+
+/-- The statement skeleton of `handle_operations`, re-extracted from the source on every run: the first loop
+over `op_list`, then the loop over `pop_list`, then `if (mark < data.size()) heapify()`; a node is taken before the
+list is advanced. -/
+theorem generated_pass_order : passOrderOK = true := by decide
+
+/-- … every successful pop moves the element to the caller's object BEFORE the release store of SUCCEEDED and before
+`pop_back()` / `reheap()` drop or overwrite it; the failed pop only stores FAILED; a deferred pop is linked before it
+becomes the head of `pop_list` (sets of actions per branch; independent statements may be reordered). -/
+theorem generated_pop_branches : popBranchesOK = true := by decide
+
+/-- … a push appends inside a try block first, then bumps `my_size` and stores SUCCEEDED (release); the catch-all
+handler stores FAILED (release) and falls through to the next operation — the exception path `cpq_throw_isolated`
+is about. -/
+theorem generated_push_branch : pushBranchOK = true := by decide
+
+/-- **Linearizability of every concurrent history of the aggregator model.**
+For ANY number of threads (`Tid = Nat`), ANY calls per thread (`todo`: pushes, pushes whose copy throws, pops; no
+pop whose element assignment throws — see `aggregator_pop_throw_witness` for that case), ANY initial heap and ANY
+schedule of the access-level model `Agg` (one step per atomic access of `aggregator_generic::execute`,
+`start_handle_operations` and `handle_operations`), let `H = history …` be the sequence of invocations and
+responses and `T = trace …` the same sequence with one linearization point per operation inserted *at the
+`pending_operations.exchange(nullptr)` that grabs the operation's batch* (all operations of a batch at that
+instant, ordered by `batchLin`).  Then
+1. `proj T = H`: `T` is `H` plus linearization points;
+2. `T` is well-formed: per thread it reads `inv · lin · resp · inv · lin · resp · …`, i.e. every linearization point
+   lies between the invocation and the response of its own operation, every completed operation has exactly one, and
+   it returns the result chosen there — because an operation is in exactly one batch, the batch is grabbed after
+   all its members were invoked and before any of them returns;
+3. the operations with these results, in the order of their linearization points (batch after batch), are a legal
+   execution of the sequential specification (`specStep`) from the initial contents;
+hence `H` is `Linearizable`. -/
+theorem cpq_history_linearizable (todo : Tid → List (Op × Nat)) (h0 : Heap)
+    (hh : IsHeap h0.data h0.mark) (hf : h0.mark = h0.data.length)
+    (hnt : ∀ t, ∀ p ∈ todo t, popThrows p.1 = false) (sched : List Tid) :
+    proj (trace (Agg todo h0).init sched) = history (Agg todo h0).init sched ∧
+    (wfRun (fun _ => .out) (trace (Agg todo h0).init sched)).isSome ∧
+    (specRun h0.data (marks (trace (Agg todo h0).init sched))).isSome ∧
+    Linearizable h0.data (history (Agg todo h0).init sched) := by
+  obtain ⟨p', a', h1, h2, _⟩ := J_run sched _ (fun _ => .pushOk) _ (J_init todo h0 hh hf hnt (fun _ => .pushOk))
+  rw [phase_init] at h1
+  have e1 : (wfRun (fun _ => Phase.out) (trace (Agg todo h0).init sched)).isSome := by rw [h1]; rfl
+  have e2 : (specRun h0.data (marks (trace (Agg todo h0).init sched))).isSome := by rw [h2]; rfl
+  exact ⟨proj_trace _ _, e1, e2, ⟨_, proj_trace _ _, e1, e2⟩⟩
+
+/-- **Every pushed element is popped at most once and none is lost.**  In the setting of
+`cpq_history_linearizable`, for every schedule:
+(a) for the linearized operations `L = marksT T` (every completed operation of the history is among them, with the
+    result it returned, `wf_completed`): the spec's final contents `abs` satisfy
+    `abs + (values returned by successful pops) = initial contents + (values of successful pushes)` as multisets — so a
+    pushed or initial element is returned by at most one pop, and whatever was not popped is still in `abs`;
+(b) whenever no batch is being handled in the final state, the vector `data` holds exactly `abs`;
+(c) if moreover every thread is between calls (all calls have returned), then `L` is, as a multiset, exactly the
+    list of completed operations of the HISTORY, so
+    `data + popped(history) = initial + pushed(history)`. -/
+theorem cpq_pop_at_most_once_none_lost (todo : Tid → List (Op × Nat)) (h0 : Heap)
+    (hh : IsHeap h0.data h0.mark) (hf : h0.mark = h0.data.length)
+    (hnt : ∀ t, ∀ p ∈ todo t, popThrows p.1 = false) (sched : List Tid) :
+    let T := trace (Agg todo h0).init sched
+    let sF := runAgg (Agg todo h0).init sched
+    ∃ abs, specRun h0.data (marks T) = some abs ∧
+      (abs ++ poppedT (marksT T)).Perm (h0.data ++ pushedT (marksT T)) ∧
+      ((∀ a, (sF.ths a).pc.handling = false) → abs.Perm sF.heap.data) ∧
+      ((∀ a, (sF.ths a).pc = .idle) →
+        (marksT T).Perm (completed (history (Agg todo h0).init sched)) ∧
+        (sF.heap.data ++ poppedT (completed (history (Agg todo h0).init sched))).Perm
+          (h0.data ++ pushedT (completed (history (Agg todo h0).init sched)))) := by
+  intro T sF
+  obtain ⟨p', a', h1, h2, hj⟩ := J_run sched _ (fun _ => .pushOk) _ (J_init todo h0 hh hf hnt (fun _ => .pushOk))
+  rw [phase_init] at h1
+  have hc := specRun_conserves _ _ _ h2
+  refine ⟨a', h2, ?_, fun hq => (hj.quiet hq).1, ?_⟩
+  · simpa [poppedT, pushedT, marksT_marks] using hc
+  · intro hidle
+    have hperm : (marksT T).Perm (completed (history (Agg todo h0).init sched)) := by
+      apply perm_of_ofT
+      intro t
+      have := wf_completed T _ _ h1 t
+      have e0 : pendOf (fun _ => Phase.out) t = [] := rfl
+      have e1 : pendOf (phaseOf sF p') t = [] := by simp [pendOf, phaseOf, hidle t]
+      have e2 : openOf (fun _ => Phase.out) = fun _ => none := rfl
+      rw [e0, e1, e2, proj_trace] at this
+      simpa [completed] using this
+    refine ⟨hperm, ?_⟩
+    have hq : ∀ a, (sF.ths a).pc.handling = false := fun a => by rw [hidle a]; rfl
+    have habs := (hj.quiet hq).1
+    have hp1 : (poppedT (marksT T)).Perm (poppedT (completed (history (Agg todo h0).init sched))) := by
+      unfold poppedT popped; exact (hperm.map (·.2)).filterMap _
+    have hp2 : (pushedT (marksT T)).Perm (pushedT (completed (history (Agg todo h0).init sched))) := by
+      unfold pushedT pushed; exact (hperm.map (·.2)).filterMap _
+    have hc' : (a' ++ poppedT (marksT T)).Perm (h0.data ++ pushedT (marksT T)) := by
+      simpa [poppedT, pushedT, marksT_marks] using hc
+    exact ((habs.symm.append hp1.symm).trans hc').trans ((List.Perm.refl _).append hp2)
+
+/-- **try_pop fails only if the queue was empty at an instant during the call.**  In the setting of
+`cpq_history_linearizable`: wherever the trace `T` has the linearization point of a `try_pop` with result FAILED,
+the contents of the abstract queue at that point (the spec run over all earlier linearization points) are empty;
+and that point lies between the invocation and the response of the call (clause 2 of `cpq_history_linearizable`:
+`T` is well-formed, so the response `F` seen by the caller is this very result). -/
+theorem cpq_try_pop_empty_truthful (todo : Tid → List (Op × Nat)) (h0 : Heap)
+    (hh : IsHeap h0.data h0.mark) (hf : h0.mark = h0.data.length)
+    (hnt : ∀ t, ∀ p ∈ todo t, popThrows p.1 = false) (sched : List Tid)
+    (T1 T2 : List TEv) (t : Tid) (thr : Bool)
+    (hT : trace (Agg todo h0).init sched = T1 ++ .lin t (.pop thr) .popFailed :: T2) :
+    specRun h0.data (marks T1) = some [] := by
+  obtain ⟨_, _, h3, _⟩ := cpq_history_linearizable todo h0 hh hf hnt sched
+  rw [hT] at h3
+  have e : marks (T1 ++ TEv.lin t (.pop thr) .popFailed :: T2) = marks T1 ++ (.pop thr, .popFailed) :: marks T2 := by
+    simp [marks]
+  rw [e] at h3
+  obtain ⟨sf, hsf⟩ := Option.isSome_iff_exists.mp h3
+  obtain ⟨s1, s2, a, b, _⟩ := specRun_split _ _ _ _ _ hsf
+  rcases specStep_cases _ _ _ b with ⟨x, h, _⟩ | ⟨x, h, _⟩ | ⟨v, h, _⟩ | ⟨thr', _, h0', _⟩ | ⟨h, _⟩
+  · cases h
+  · cases h
+  · cases h
+  · rw [a, h0']
+  · cases h
+
+/-- **Every successful try_pop returns a highest-priority element of the contents at its linearization point**
+(ties in any order).  In the setting of `cpq_history_linearizable`: wherever the trace has the linearization
+point of a `try_pop` that returns `v`, the abstract contents `c` there contain `v`, and no element of `c` has a
+strictly greater priority (`y.key ≤ v.key` for all `y ∈ c`; `my_compare(v, y)` is false). -/
+theorem cpq_pop_returns_maximal (todo : Tid → List (Op × Nat)) (h0 : Heap)
+    (hh : IsHeap h0.data h0.mark) (hf : h0.mark = h0.data.length)
+    (hnt : ∀ t, ∀ p ∈ todo t, popThrows p.1 = false) (sched : List Tid)
+    (T1 T2 : List TEv) (t : Tid) (thr : Bool) (v : Elem)
+    (hT : trace (Agg todo h0).init sched = T1 ++ .lin t (.pop thr) (.popOk v) :: T2) :
+    ∃ c, specRun h0.data (marks T1) = some c ∧ v ∈ c ∧ ∀ y ∈ c, y.key ≤ v.key := by
+  obtain ⟨_, _, h3, _⟩ := cpq_history_linearizable todo h0 hh hf hnt sched
+  rw [hT] at h3
+  have e : marks (T1 ++ TEv.lin t (.pop thr) (.popOk v) :: T2) = marks T1 ++ (.pop thr, .popOk v) :: marks T2 := by
+    simp [marks]
+  rw [e] at h3
+  obtain ⟨sf, hsf⟩ := Option.isSome_iff_exists.mp h3
+  obtain ⟨s1, s2, a, b, _⟩ := specRun_split _ _ _ _ _ hsf
+  rcases specStep_cases _ _ _ b with ⟨x, h, _⟩ | ⟨x, h, _⟩ | ⟨v', h, hv, hmax, _⟩ | ⟨thr', h, _⟩ | ⟨h, _⟩
+  · cases h
+  · cases h
+  · simp only [Prod.mk.injEq, Res.popOk.injEq] at h
+    obtain ⟨_, rfl⟩ := h
+    exact ⟨s1, a, hv, hmax⟩
+  · cases h
+  · cases h
+
+/-- **A throwing copy is isolated, at history level** (for every throw the code isolates: the element copy /
+allocation inside a push, caught in `handle_operations`, status FAILED, rethrown by `push` in its own caller).
+In the setting of `cpq_history_linearizable`, with `L` the linearized operations of the trace:
+(a) a push whose copy throws is linearized with result `pushFailed` and nothing else — and, `T` being
+    well-formed, that result is delivered by the response of the SAME thread's call; no operation of any other
+    thread gets an exception result, a push whose copy does not throw succeeds, a pop never ends with an exception;
+(b) the failed operations have no effect: the linearization with all failed pushes REMOVED is accepted by the
+    specification exactly like the full one (same final contents) — the other operations are unaffected. -/
+theorem cpq_throw_isolated (todo : Tid → List (Op × Nat)) (h0 : Heap)
+    (hh : IsHeap h0.data h0.mark) (hf : h0.mark = h0.data.length)
+    (hnt : ∀ t, ∀ p ∈ todo t, popThrows p.1 = false) (sched : List Tid) :
+    let L := marks (trace (Agg todo h0).init sched)
+    (∀ e ∈ L, (∀ x, e.1 = .push x true → e.2 = .pushFailed) ∧ (∀ x, e.1 = .push x false → e.2 = .pushOk) ∧
+      (e.1 = .pop false → ∀ own, e.2 ≠ .exc own)) ∧
+    specRun h0.data (L.filter (fun e => !isFailedPush e)) = specRun h0.data L := by
+  intro L
+  obtain ⟨_, _, h3, _⟩ := cpq_history_linearizable todo h0 hh hf hnt sched
+  refine ⟨?_, specRun_drop_failed _ _⟩
+  intro e he
+  obtain ⟨l1, l2, hl⟩ := List.append_of_mem he
+  obtain ⟨sf, hsf⟩ := Option.isSome_iff_exists.mp h3
+  change specRun h0.data L = some sf at hsf
+  rw [hl] at hsf
+  obtain ⟨s1, s2, _, b, _⟩ := specRun_split _ _ _ _ _ hsf
+  rcases specStep_cases _ _ _ b with ⟨x, rfl, _⟩ | ⟨x, rfl, _⟩ | ⟨v', rfl, _⟩ | ⟨thr', rfl, _⟩ | ⟨rfl, _⟩
+  all_goals (refine ⟨?_, ?_, ?_⟩ <;> simp)
+
+/-- every strict weak order (the requirement on `Compare`) on the finitely many elements of a run is the
+order of a rank function — the form `a.key < b.key` the model uses -/
+theorem comparator_is_rank {α : Type} (lt : α → α → Bool) (h : StrictWeak lt) (xs : List α) :
+    ∃ key : α → Nat, ∀ a ∈ xs, ∀ b ∈ xs, (lt a b = true ↔ key a < key b) := swo_has_rank lt h xs
+
+/-- non-vacuity of the history theorems: three threads on the heap `[3]` (keys with a tie: elements 1 and 2 both
+have priority 5).  Thread 2 (`try_pop`) is the first on the empty pending list and becomes the handler of a batch
+that contains its own pop, thread 1's `push 2` and thread 0's `push 1`; the list is served top first
+(`push 1`, `push 2`, `try_pop`), the pop is served LAST and returns the tied element 2 through the `data.back()`
+shortcut (not the first-pushed 1, and although both are in the vector).  The trace is
+`inv 2 · inv 1 · inv 0 · lin 1 (push 2) · lin 2 (pop → 2) · lin 0 (push 1) · resp 2 · resp 1 · resp 0`:
+well-formed and legal, with a linearization order that differs from the serve order. -/
+example :
+    let todo : Tid → List (Op × Nat) := fun t =>
+      if t = 0 then [(.push ⟨5, 1⟩ false, 0)] else if t = 1 then [(.push ⟨5, 2⟩ false, 0)] else if t = 2 then [(.pop false, 0)] else []
+    let sched := [2,2,2,2, 1,1,1,1, 0,0,0,0, 2,2,2] ++ List.replicate 30 2 ++ List.replicate 6 1 ++ List.replicate 6 0
+    let s0 := (Agg todo ⟨[⟨3, 3⟩], 1⟩).init
+    (history s0 sched).length = 6 ∧
+    marksT (trace s0 sched) = [(1, .push ⟨5, 2⟩ false, .pushOk), (2, .pop false, .popOk ⟨5, 2⟩), (0, .push ⟨5, 1⟩ false, .pushOk)] ∧
+    (wfRun (fun _ => .out) (trace s0 sched)).isSome = true ∧
+    (specRun [⟨3, 3⟩] (marks (trace s0 sched))).isSome = true := by decide
+
 /-! non-vacuity: the hypotheses are satisfiable by non-trivial states, and the model computes what the code
 does on them -/
-example : IsHeap [9, 7, 8, 3] 4 ∧ (4 : Nat) = [9, 7, 8, 3].length := by
+example : IsHeap [⟨9, 0⟩, ⟨7, 1⟩, ⟨8, 2⟩, ⟨7, 3⟩] 4 ∧ (4 : Nat) = [(⟨9, 0⟩ : Elem), ⟨7, 1⟩, ⟨8, 2⟩, ⟨7, 3⟩].length := by
   refine ⟨?_, rfl⟩
   intro i h0 h1
   have : i = 1 ∨ i = 2 ∨ i = 3 := by omega
   rcases this with rfl | rfl | rfl <;> decide
-example : IsHeap [5, 9, 4] 1 := fun i h0 h1 => by omega
+example : IsHeap [⟨5, 5⟩, ⟨9, 9⟩, ⟨4, 4⟩] 1 := fun i h0 h1 => by omega
 
 /-- non-vacuity of the aggregator model: a schedule in which thread 1's `try_pop` is combined into the batch
 handled by thread 0 (whose own operation is the `push 5`), the pop is deferred to the second pass and
 receives the element pushed in the same batch. -/
 example :
-    let todo : Tid → List (Op × Nat) := fun t => if t = 0 then [(.push 5 false, 0)] else if t = 1 then [(.pop false, 0)] else []
+    let todo : Tid → List (Op × Nat) := fun t => if t = 0 then [(.push ⟨5, 5⟩ false, 0)] else if t = 1 then [(.pop false, 0)] else []
     let s := (Agg todo ⟨[], 0⟩).run [0,0,0,0, 1,1,1,1, 0,0,0, 0,0,0,0,0, 0,0,0,0, 0,0,0, 1,1]
-    (s.ths 1).results = [.popOk 5] ∧ (s.ths 0).results = [.pushOk] ∧ (s.ths 1).nGrab = 1 ∧ (s.ths 1).nRet = 1 := by decide
+    (s.ths 1).results = [.popOk ⟨5, 5⟩] ∧ (s.ths 0).results = [.pushOk] ∧ (s.ths 1).nGrab = 1 ∧ (s.ths 1).nRet = 1 := by decide
 
 /-- Negation witness one level up (model of the code AS WRITTEN): thread 1's `try_pop` has a throwing element
 assignment and is combined into the batch handled by thread 0 (whose own operation is `push 5`).  The exception
@@ -213,7 +434,7 @@ surfaces in thread 0's `push` call (`exc false`: not the caller of the throwing 
 itself succeeded (its status was stored, `nSet = 1`), `handler_busy` stays 1 forever and thread 1 keeps
 spinning on a status that is never stored. -/
 theorem aggregator_pop_throw_witness : guarded = false →
-    let todo : Tid → List (Op × Nat) := fun t => if t = 0 then [(.push 5 false, 0)] else if t = 1 then [(.pop true, 0)] else []
+    let todo : Tid → List (Op × Nat) := fun t => if t = 0 then [(.push ⟨5, 5⟩ false, 0)] else if t = 1 then [(.pop true, 0)] else []
     let s := (Agg todo ⟨[], 0⟩).run [0,0,0,0, 1,1,1,1, 0,0,0, 0,0,0,0,0, 0,0, 1,1,1]
     (s.ths 0).results = [.exc false] ∧ (s.ths 0).nRet = 1 ∧ (s.ths 0).nSet = 1 ∧ s.busy = 1 ∧
     (s.ths 1).pc = .spin ∧ (s.ths 1).status = 0 ∧ (s.ths 1).results = [] := by decide
